@@ -1,4 +1,4 @@
-import FalconModel.FinalizeNone
+import FalconModel.FinalizeClose
 open Fz
 
 def hexD (n : Nat) : Char := if n < 10 then Char.ofNat (48+n) else Char.ofNat (87+n)
@@ -47,7 +47,8 @@ def runCase (ws : List String) : String :=
     cookies := (splitNE (kv ws "cookies") ";").map strOfHex }
   let c : Cfg := { head := kv ws "head" == "1", appDefaultType := optS (kv ws "dflt"),
                    respDefaultType := optS (kv ws "dflt"), fileWrapper := kv ws "fw" == "1" }
-  showTrace (Fn.asgiTraceN r items c (kv ws "close" == "1") (kv ws "xf").toNat?)
+  -- cf=1: stream.close() itself raises when it is called (Fc.asgiTraceC; without the token this is Fn.asgiTraceN: Fc.asgiTraceC_nofault)
+  showTrace (Fc.asgiTraceC r items c (kv ws "close" == "1") (kv ws "xf").toNat? (kv ws "cf" == "1"))
 
 partial def loop (h : IO.FS.Stream) : IO Unit := do
   let line ← h.getLine
